@@ -177,7 +177,7 @@ def rule_step(ctx, repo):
             if Q.has("np.put(tds.qg, $key, $eqval)", lp2, e2):
                 ok = True
     aw = [n for n in g.nodes() if g.data(n)["kind"] == "loop" and isinstance(g.data(n)["ast"], ast.For)
-          and src(g.data(n)["ast"].iter) == "system.antiwindups"]
+          and Q.match("system.antiwindups", g.data(n)["ast"].iter) is not None]
     ok2, wit = s.between(cq, sol, aw) if aw else (False, "")
     ctx.check(ok and ok2, "C04.rule", "step/antiwindup-override", "qg at pegged addresses overwritten between calc_q and the solve",
               "anti-windup residual override missing or misplaced " + wit, s.W())
